@@ -1,9 +1,74 @@
 import PersimVerif.Drv.Util
-/-! driver commands: IR (stub until the model lands) -/
+import PersimVerif.Model.IR
+/-!
+driver commands for C19 (the checker of `Model/IR.lean`, executed on programs produced by `py2ir.py`)
+
+  program   `[[p,…],[[op,a,b],…]]`   op: 0 new x s · 1 copy x y · 2 store y v · 3 elem x y · 4 write x ·
+                                       5 setattr y v · 6 readGlobal g · 7 writeGlobal g · 8 rng
+  solution  `[w,k,[pts…],[cont…]]`    packed tables: `w` bits per mask (bit 0 = owned, bit s+1 = site s), `k` masks per piece
+
+  `ir.check <program> <solution>`   → T/F   (`safe`: post-fixpoint and no write through a possibly-owned variable)
+  `ir.fix   <program> <solution>`   → T/F   (`isPostFixpoint` only)
+  `ir.solve <program>`              → the solver's solution (unverified; checked by the two commands above)
+  `ir.globals <program> <reads> <writes> <T|F>` → T/F (`globalsWithin`)
+-/
 namespace PersimVerif.Drv.IR
-open PersimVerif Val PersimVerif.Drv
+open PersimVerif Val PersimVerif.Drv PersimVerif.IR
+
+def instrOf? : Val → Option Instr
+  | .list [o, a, b] => do
+    let o ← asNat? o
+    let a ← asNat? a
+    let b ← asNat? b
+    match o with
+    | 0 => some (.new a b)
+    | 1 => some (.copy a b)
+    | 2 => some (.store a b)
+    | 3 => some (.elem a b)
+    | 4 => some (.write a)
+    | 5 => some (.setattr a b)
+    | 6 => some (.readGlobal a)
+    | 7 => some (.writeGlobal a)
+    | 8 => some .rng
+    | _ => none
+  | _ => none
+
+def progOf? : Val → Option Prog
+  | .list [ps, is] => do
+    let ps ← listOf? asNat? ps
+    let is ← listOf? instrOf? is
+    pure ⟨ps, is⟩
+  | _ => none
+
+def solOf? : Val → Option SolB
+  | .list [n, k, p, c] => do
+    let n ← asNat? n
+    let k ← asNat? k
+    let p ← listOf? asNat? p
+    let c ← listOf? asNat? c
+    pure ⟨n, k, p, c⟩
+  | _ => none
+
+def ofSol (b : SolB) : Val := .list [Val.ofNat b.w, Val.ofNat b.k, ofNats b.pts, ofNats b.cont]
 
 def handle : Handler
+  | "ir.check", [p, s] => do
+    let p ← progOf? p
+    let s ← solOf? s
+    pure (ofBool (safe p s))
+  | "ir.fix", [p, s] => do
+    let p ← progOf? p
+    let s ← solOf? s
+    pure (ofBool (isPostFixpoint p s))
+  | "ir.solve", [p] => do
+    let p ← progOf? p
+    pure (ofSol (solve p (p.instrs.length + 2)))
+  | "ir.globals", [p, r, w, f] => do
+    let p ← progOf? p
+    let r ← listOf? asNat? r
+    let w ← listOf? asNat? w
+    let f ← asBool? f
+    pure (ofBool (globalsWithin p r w f))
   | _, _ => none
 
 end PersimVerif.Drv.IR
